@@ -5,6 +5,7 @@ import Gomjml.Core.CharData
 import Gomjml.Core.LayoutLeaves
 import Gomjml.Core.MixedProofs
 import Gomjml.Core.TextFlow
+import Gomjml.Core.TextVoid
 /-! # C04 — content fidelity: author content appears once, in order, as authored (property theorems only)
 
 Layout part, on the skeleton model (`t` = one content slot; the combined machine rejects `t` inside an Outlook
@@ -131,6 +132,10 @@ theorem C04_text_whitespace (s : List Gomjml.Amp.B) :
     Gomjml.TextFlow.tidyWs false (Gomjml.TextFlow.collapse false s) = true ∧
     Gomjml.TextFlow.collapse false (Gomjml.TextFlow.collapse false s) = Gomjml.TextFlow.collapse false s :=
   ⟨Gomjml.TextFlow.collapse_tidy s false, Gomjml.TextFlow.collapse_idem s false⟩
+
+/-- the void-tag normaliser that runs next rewrites tags only: a text without `<` passes its tag scan unchanged -/
+theorem C04_void_normaliser_keeps_text (fuel : Nat) (s : List Gomjml.Amp.B) (h : ∀ b ∈ s, b ≠ 60) :
+    Gomjml.TextVoid.normF fuel s = s := Gomjml.TextVoid.normF_no_lt fuel s h
 
 /-- non-vacuity: `"  a \n\t b<br/>  "` becomes `"a b<br/>"` -/
 example : Gomjml.TextFlow.textInner [32, 32, 97, 32, 10, 9, 32, 98, 60, 98, 114, 47, 62, 32, 32] = [97, 32, 98, 60, 98, 114, 47, 62] := by decide
